@@ -85,7 +85,7 @@ func (c limCfg) build(reg *RecRegistry) *limInst {
 	top := in
 	switch c.wrapper {
 	case "windowed":
-		w, err := limit.NewWindowedLimit("w", 1e8, 1e8, 10, 1, in, nil)
+		w, err := limit.NewWindowedLimit("w", 1e8, 1e8, 10, 1, in, r)
 		if err != nil {
 			panic(err)
 		}
